@@ -8,8 +8,8 @@ WT=/tmp/wt/confirm.$$
 git -C /repo worktree add --detach -q "$WT" HEAD || exit 2
 trap 'git -C /repo worktree remove --force "$WT" >/dev/null 2>&1' EXIT
 cd "$WT"
-PYTHONPATH="$WT" /venv/bin/python "$DEMO" >/dev/null 2>&1; echo "demo_clean_exit=$?"
+PYTHONPATH="$WT:/verif/.deps" /venv/bin/python "$DEMO" >/dev/null 2>&1; echo "demo_clean_exit=$?"
 git apply "$PATCH" || { echo "patch_applies=no"; exit 1; }
 echo "patch_applies=yes"
-PYTHONPATH="$WT" /venv/bin/python "$DEMO" >/dev/null 2>&1; echo "demo_patched_exit=$?"
+PYTHONPATH="$WT:/verif/.deps" /venv/bin/python "$DEMO" >/dev/null 2>&1; echo "demo_patched_exit=$?"
 PYTHONPATH="$WT" /venv/bin/python -m pytest -q -p no:cacheprovider --color=no -n 8 --timeout=900 2>&1 | tail -1
